@@ -91,6 +91,58 @@ static int replay_flight()
 	return bad ? 3 : 0;
 }
 
+// [C06.redrop]: a hop that tail-drops the first TWO transmissions of one payload segment (the way queue::incoming_packet
+// does: take the drop callback out of the packet and call it).  The segment must still arrive.
+struct drop_twice : sink
+{
+	int drops_left = 2; std::uint64_t victim = 3; int silent = 0;
+	void incoming_packet(aux::packet p) override
+	{
+		if (p.type == aux::packet::type_t::payload && p.seq_nr == victim && drops_left > 0)
+		{
+			--drops_left;
+			auto f = std::move(p.drop_fun);
+			if (f) f(std::move(p)); else ++silent;
+			return;
+		}
+		forward_packet(std::move(p));
+	}
+	std::string label() const override { return "drop_twice"; }
+};
+struct drop_config : default_config
+{
+	std::shared_ptr<drop_twice> d = std::make_shared<drop_twice>();
+	std::shared_ptr<queue> q;
+	void build(simulation& s) override { default_config::build(s); q = std::make_shared<queue>(std::ref(s.get_io_context()), 0, ch::milliseconds(5), 0, "link"); }
+	route channel_route(asio::ip::address, asio::ip::address) override { route r; r.append(d); r.append(q); return r; }
+	route incoming_route(asio::ip::address) override { return route(); }
+	route outgoing_route(asio::ip::address) override { return route(); }
+	void clear() override { q.reset(); default_config::clear(); }
+};
+static int replay_redrop()
+{
+	drop_config cfg;
+	simulation sim(cfg);
+	asio::io_context srv(sim, asio::ip::make_address_v4("50.0.0.1")), cli(sim, asio::ip::make_address_v4("50.0.0.2"));
+	asio::ip::tcp::acceptor acc(srv);
+	acc.open(asio::ip::tcp::v4()); acc.bind(asio::ip::tcp::endpoint(asio::ip::address_v4::any(), 4000)); acc.listen(10);
+	asio::ip::tcp::socket accepted(srv), c(cli);
+	std::vector<char> data(20000, 'x'), rbuf(100000);
+	std::size_t sent = 0, received = 0;
+	std::function<void()> do_read = [&]() { accepted.async_read_some(asio::buffer(rbuf), [&](boost::system::error_code const& e, std::size_t n) { if (e) return; received += n; do_read(); }); };
+	std::function<void()> do_write = [&]() { if (sent >= data.size()) return; c.async_write_some(asio::buffer(data.data() + sent, data.size() - sent), [&](boost::system::error_code const& e, std::size_t n) { if (e) return; sent += n; do_write(); }); };
+	acc.async_accept(accepted, [&](boost::system::error_code const& e) { if (!e) do_read(); });
+	c.async_connect(asio::ip::tcp::endpoint(asio::ip::make_address_v4("50.0.0.1"), 4000), [&](boost::system::error_code const& e) { if (!e) do_write(); });
+	sim.run();
+	if (cfg.d->silent > 0 || received != data.size())
+	{
+		std::printf("[C06.redrop] a segment dropped twice by a hop: the second drop found no drop callback in the packet (%d silent drops); the sender was never told, the segment is lost: %zu of %zu bytes delivered, %d bytes still counted in flight at quiescence\n"
+			, cfg.d->silent, received, data.size(), c.m_bytes_in_flight);
+		return 3;
+	}
+	return 0;
+}
+
 // [C05.fresh]: data received but not read on one connection must not appear on the next connection of the same socket object
 static int replay_fresh()
 {
@@ -253,6 +305,7 @@ int main(int argc, char** argv)
 	if (argc < 3) return 4;
 	std::string label = argv[2];
 	if (label.find("C12.deref") != std::string::npos || label.find("C12.vanish") != std::string::npos) return replay_drop_after_close();
+	if (label.find("C06.redrop") != std::string::npos) return replay_redrop();
 	if (label.find("C06.flight") != std::string::npos) return replay_flight();
 	if (label.find("C05.fresh") != std::string::npos) return replay_fresh();
 	if (label.find("C20.mss") != std::string::npos) return replay_mss();
